@@ -9,6 +9,7 @@
 //!   RequestParams.lean – the eight `prepare_request` functions and `endpoint_request`, statement by statement
 //!   PollStep.lean    – `process_response` (interval expressions, which replies continue) and the two poll loops
 //!   ResponseFlow.lean – `endpoint_response` and friends as a decision tree
+//!   SerdeShapes.lean – the serde-derived structs: fields with JSON names and serde attributes, accessors, setters
 //!   AuthUrlSteps.lean – `AuthorizationRequest::url`, its builder methods, constructor and entry points
 //! Files are rewritten only when their content changes.  The first four are written together or not at all
 //! (they share the inventory); each of the last three is translated and written on its own, so that a shape
@@ -27,6 +28,7 @@ mod mini;
 mod poll;
 mod request;
 mod respflow;
+mod serdeshape;
 mod tables;
 
 use std::collections::BTreeMap;
@@ -124,6 +126,7 @@ fn run(src: &Path, outdir: &Path, inv_json: &Path) -> R<Vec<String>> {
     emit("PollStep.lean", poll::extract(&srcs), &mut status);
     emit("ResponseFlow.lean", respflow::extract(&srcs), &mut status);
     emit("AuthUrlSteps.lean", authurl::extract(&srcs), &mut status);
+    emit("SerdeShapes.lean", serdeshape::extract(&srcs), &mut status);
     emit("ErrorTables.lean", tables::extract(&srcs), &mut status);
     match inventory::extract(&srcs) {
         Ok(mut inv) => {
